@@ -13,9 +13,12 @@
                                       DeleteAll; close(closedChan)
      input   I   runInputLoop: LRun = select {closedChan, recvChan}; LRecvSpace = waitForRecvQueueSpace
      output  O   runOutputLoop: LRun = select {closedChan, sendQueue event}; LConnWrite = inside conn.Write holding oLock
-     event   E   underlay RunEventLoop: ERun (polls done / ctx before each read), ERead = blocked in the network read
-                                      with the 60..120 s read timeout armed, EDeliver = deliverSegmentToSession
-     underlay U  underlay Close: conn.SetDeadline(now) [connDL], session Close (as C2), UWg = s.wg.Wait(), close(done)
+     event   E   underlay RunEventLoop: ERun = the select at the top of the loop {done, clean ticker, default};
+                                      EArmed = readOneSegment armed its 60..120 s read timeout (this REPLACES the
+                                      connection's read deadline) and is about to look at done (fixed code) / to read;
+                                      ERead = blocked in the network read, EDeliver = deliverSegmentToSession
+     underlay U  underlay Close: conn.SetDeadline(now) [connDL, readDL], session Close (as C2), UWg = s.wg.Wait(),
+                                      close(done), USecondDL = conn.SetDeadline(now) once more (fixed code)
    Environment labels change what the network / the peer / the timers do.  *)
 From Coq Require Import ZArith List Bool Arith.
 From M Require Import gen.Consts model.Deadline.
@@ -29,8 +32,8 @@ Inductive cpc := CIdle | CGrace (n : nat) | COLock | COutput | CFinish | CRet.
    the lock first ("s.oLock.Unlock() // s.oLock can be acquired by s.closeWithError()"): held = false.  held = true is
    the variant that keeps the lock (defer Unlock), kept in the model to show what the early Unlock is for. *)
 Inductive lpc := LRun | LRecvSpace | LConnWrite | LExited | LErr (held : bool) (c : cpc).
-Inductive epc := ERun | ERead | EDeliver | EExited.
-Inductive upc := UIdle | UCloseSession | UWg | URet.
+Inductive epc := ERun | EArmed | ERead | EDeliver | EExited.
+Inductive upc := UIdle | UCloseSession | UWg | USecondDL | URet.
 
 Record state := mkState {
   closeRequested : bool;   (* atomic.Bool, CAS in closeWithError *)
@@ -54,8 +57,14 @@ Record state := mkState {
   isClient : bool;
   pR : rpc; pW : wpc; pC1 : cpc; pC2 : cpc; pI : lpc; pO : lpc; pE : epc; pU : upc;
   netBroken : bool;        (* the connection is broken (TCP reset, closed by the peer): network I/O returns an error *)
-  keepLock : bool          (* model variant, never changed by a step: false = the code (lock released before the
+  keepLock : bool;         (* model variant, never changed by a step: false = the code (lock released before the
                               output loop calls closeWithError), true = lock kept *)
+  readDL : bool;           (* the connection's read deadline lies in the past: a network read returns at once.  Set by
+                              the underlay Close, REPLACED (cleared) when the event loop arms its read timeout *)
+  tickPending : bool;      (* a sessionCleanTicker tick is waiting in the channel (the ticker is stopped by Close, a tick
+                              that is already pending stays) *)
+  fixedLoop : bool         (* model variant, never changed by a step: true = the code (second SetDeadline(now) after
+                              close(done); readOneSegment looks at done after arming), false = the code before that fix *)
 }.
 
 Inductive label :=
@@ -67,7 +76,7 @@ Inductive label :=
 (* environment *)
 | EData (b : bool) | ERecvFull (b : bool) | ERecvChanFull (b : bool) | ESendFull (b : bool) | ESendMoved (b : bool)
 | ERFire | EWFire | ENetStall (b : bool) | EInputFail | EOutputFail | ESegment (* the event loop got a segment *)
-| EReadTimeout | ENetBreak.
+| EReadTimeout | ENetBreak | ETick.
 
 Definition grace_iters : nat := Z.to_nat C15_closeWaitIterations.
 
@@ -82,40 +91,45 @@ Definition net_ok (s : state) : bool := negb (netStalled s) || connDL s || netBr
 Definition setR (s : state) (p : rpc) : state :=
   mkState (closeRequested s) (closedChan s) (nclosed s) (attached s) (inputErr s) (outputErr s) (udone s) (connDL s) (netStalled s)
           (recvNonEmpty s) (recvFull s) (recvChanFull s) (sendFull s) (sendMoved s) (rFired s) (wFired s) (rdSet s) (wdSet s) (isClient s)
-          p (pW s) (pC1 s) (pC2 s) (pI s) (pO s) (pE s) (pU s) (netBroken s) (keepLock s).
+          p (pW s) (pC1 s) (pC2 s) (pI s) (pO s) (pE s) (pU s) (netBroken s) (keepLock s) (readDL s) (tickPending s) (fixedLoop s).
 Definition setW (s : state) (p : wpc) : state :=
   mkState (closeRequested s) (closedChan s) (nclosed s) (attached s) (inputErr s) (outputErr s) (udone s) (connDL s) (netStalled s)
           (recvNonEmpty s) (recvFull s) (recvChanFull s) (sendFull s) (sendMoved s) (rFired s) (wFired s) (rdSet s) (wdSet s) (isClient s)
-          (pR s) p (pC1 s) (pC2 s) (pI s) (pO s) (pE s) (pU s) (netBroken s) (keepLock s).
+          (pR s) p (pC1 s) (pC2 s) (pI s) (pO s) (pE s) (pU s) (netBroken s) (keepLock s) (readDL s) (tickPending s) (fixedLoop s).
 Definition setC (one : bool) (s : state) (p : cpc) : state :=
   mkState (closeRequested s) (closedChan s) (nclosed s) (attached s) (inputErr s) (outputErr s) (udone s) (connDL s) (netStalled s)
           (recvNonEmpty s) (recvFull s) (recvChanFull s) (sendFull s) (sendMoved s) (rFired s) (wFired s) (rdSet s) (wdSet s) (isClient s)
-          (pR s) (pW s) (if one then p else pC1 s) (if one then pC2 s else p) (pI s) (pO s) (pE s) (pU s) (netBroken s) (keepLock s).
+          (pR s) (pW s) (if one then p else pC1 s) (if one then pC2 s else p) (pI s) (pO s) (pE s) (pU s) (netBroken s) (keepLock s) (readDL s) (tickPending s) (fixedLoop s).
 Definition setI (s : state) (p : lpc) : state :=
   mkState (closeRequested s) (closedChan s) (nclosed s) (attached s) (inputErr s) (outputErr s) (udone s) (connDL s) (netStalled s)
           (recvNonEmpty s) (recvFull s) (recvChanFull s) (sendFull s) (sendMoved s) (rFired s) (wFired s) (rdSet s) (wdSet s) (isClient s)
-          (pR s) (pW s) (pC1 s) (pC2 s) p (pO s) (pE s) (pU s) (netBroken s) (keepLock s).
+          (pR s) (pW s) (pC1 s) (pC2 s) p (pO s) (pE s) (pU s) (netBroken s) (keepLock s) (readDL s) (tickPending s) (fixedLoop s).
 Definition setO (s : state) (p : lpc) : state :=
   mkState (closeRequested s) (closedChan s) (nclosed s) (attached s) (inputErr s) (outputErr s) (udone s) (connDL s) (netStalled s)
           (recvNonEmpty s) (recvFull s) (recvChanFull s) (sendFull s) (sendMoved s) (rFired s) (wFired s) (rdSet s) (wdSet s) (isClient s)
-          (pR s) (pW s) (pC1 s) (pC2 s) (pI s) p (pE s) (pU s) (netBroken s) (keepLock s).
+          (pR s) (pW s) (pC1 s) (pC2 s) (pI s) p (pE s) (pU s) (netBroken s) (keepLock s) (readDL s) (tickPending s) (fixedLoop s).
 Definition setE (s : state) (p : epc) : state :=
   mkState (closeRequested s) (closedChan s) (nclosed s) (attached s) (inputErr s) (outputErr s) (udone s) (connDL s) (netStalled s)
           (recvNonEmpty s) (recvFull s) (recvChanFull s) (sendFull s) (sendMoved s) (rFired s) (wFired s) (rdSet s) (wdSet s) (isClient s)
-          (pR s) (pW s) (pC1 s) (pC2 s) (pI s) (pO s) p (pU s) (netBroken s) (keepLock s).
+          (pR s) (pW s) (pC1 s) (pC2 s) (pI s) (pO s) p (pU s) (netBroken s) (keepLock s) (readDL s) (tickPending s) (fixedLoop s).
 Definition setU (s : state) (p : upc) : state :=
   mkState (closeRequested s) (closedChan s) (nclosed s) (attached s) (inputErr s) (outputErr s) (udone s) (connDL s) (netStalled s)
           (recvNonEmpty s) (recvFull s) (recvChanFull s) (sendFull s) (sendMoved s) (rFired s) (wFired s) (rdSet s) (wdSet s) (isClient s)
-          (pR s) (pW s) (pC1 s) (pC2 s) (pI s) (pO s) (pE s) p (netBroken s) (keepLock s).
+          (pR s) (pW s) (pC1 s) (pC2 s) (pI s) (pO s) (pE s) p (netBroken s) (keepLock s) (readDL s) (tickPending s) (fixedLoop s).
 (* shared flags *)
 Definition setFlags (s : state) (creq closed : bool) (ncl : nat) (ierr oerr ud cdl : bool) : state :=
   mkState creq closed ncl (attached s) ierr oerr ud cdl (netStalled s)
           (recvNonEmpty s) (recvFull s) (recvChanFull s) (sendFull s) (sendMoved s) (rFired s) (wFired s) (rdSet s) (wdSet s) (isClient s)
-          (pR s) (pW s) (pC1 s) (pC2 s) (pI s) (pO s) (pE s) (pU s) (netBroken s) (keepLock s).
+          (pR s) (pW s) (pC1 s) (pC2 s) (pI s) (pO s) (pE s) (pU s) (netBroken s) (keepLock s) (readDL s) (tickPending s) (fixedLoop s).
 Definition setEnv (s : state) (stalled rne rfull rcfull sfull smoved rf wf rds wds : bool) : state :=
   mkState (closeRequested s) (closedChan s) (nclosed s) (attached s) (inputErr s) (outputErr s) (udone s) (connDL s) stalled
           rne rfull rcfull sfull smoved rf wf rds wds (isClient s)
-          (pR s) (pW s) (pC1 s) (pC2 s) (pI s) (pO s) (pE s) (pU s) (netBroken s) (keepLock s).
+          (pR s) (pW s) (pC1 s) (pC2 s) (pI s) (pO s) (pE s) (pU s) (netBroken s) (keepLock s) (readDL s) (tickPending s) (fixedLoop s).
+
+Definition setRDL (s : state) (rdl tick : bool) : state :=
+  mkState (closeRequested s) (closedChan s) (nclosed s) (attached s) (inputErr s) (outputErr s) (udone s) (connDL s) (netStalled s)
+          (recvNonEmpty s) (recvFull s) (recvChanFull s) (sendFull s) (sendMoved s) (rFired s) (wFired s) (rdSet s) (wdSet s) (isClient s)
+          (pR s) (pW s) (pC1 s) (pC2 s) (pI s) (pO s) (pE s) (pU s) (netBroken s) (keepLock s) rdl tick (fixedLoop s).
 
 (* --- the exit table of the wait points (also used by the correspondence acceptor) ------------------------ *)
 
@@ -256,15 +270,25 @@ Definition step (l : label) (s : state) : option state :=
   | EReadTimeout => match pE s with ERead => Some (setE s ERun) | _ => None end
   | TE =>
     match pE s with
-    | ERun => if udone s then Some (setE s EExited) else Some (setE s ERead)      (* re-arms the 60..120 s read timeout *)
-    | ERead => if connDL s then Some (setE s ERun) else None   (* a past deadline makes the read return; nb: the next ERun step re-arms *)
+    | ERun =>
+      (* select {ctx/done: leave; clean ticker: cleanSessions then read; default: read}.  Go picks at random among the
+         ready cases: a pending tick may win over done (worst case modelled).  Reading starts by arming the read
+         timeout, which replaces whatever read deadline the connection had. *)
+      if tickPending s then Some (setE (setRDL s false false) EArmed)
+      else if udone s then Some (setE s EExited)
+      else Some (setE (setRDL s false (tickPending s)) EArmed)
+    | EArmed =>
+      (* fixed code: readOneSegment looks at done right after arming and gives up (stream: nil,nil; packet: ErrClosedPipe) *)
+      if fixedLoop s && udone s then Some (setE s ERun) else Some (setE s ERead)
+    | ERead => if readDL s || netBroken s then Some (setE s ERun) else None   (* a past read deadline makes the read return *)
     | EDeliver => if negb (recvChanFull s) || closedChan s || udone s then Some (setE s ERun) else None
     | EExited => None
     end
   | ACallUnderlayClose =>
     match pU s with
     | UIdle => if udone s then Some (setU s URet)
-               else Some (setU (setFlags s (closeRequested s) (closedChan s) (nclosed s) (inputErr s) (outputErr s) (udone s) true) UCloseSession)
+               else (* sessionCleanTicker.Stop(); conn.SetDeadline(now) *)
+                    Some (setU (setRDL (setFlags s (closeRequested s) (closedChan s) (nclosed s) (inputErr s) (outputErr s) (udone s) true) true (tickPending s)) UCloseSession)
     | _ => None
     end
   | TU =>
@@ -277,9 +301,12 @@ Definition step (l : label) (s : state) : option state :=
       | _ => step_closer false s
       end
     | UWg => match pI s, pO s with
-             | LExited, LExited => Some (setU (setFlags s (closeRequested s) (closedChan s) (nclosed s) (inputErr s) (outputErr s) true (connDL s)) URet)
+             | LExited, LExited =>
+               Some (setU (setFlags s (closeRequested s) (closedChan s) (nclosed s) (inputErr s) (outputErr s) true (connDL s))
+                          (if fixedLoop s then USecondDL else URet))
              | _, _ => None
              end
+    | USecondDL => Some (setU (setRDL s true (tickPending s)) URet)     (* conn.SetDeadline(now) again, after close(done) *)
     | _ => None
     end
   | EData b => Some (setEnv s (netStalled s) b (recvFull s) (recvChanFull s) (sendFull s) (sendMoved s) (rFired s) (wFired s) (rdSet s) (wdSet s))
@@ -294,7 +321,8 @@ Definition step (l : label) (s : state) : option state :=
   | ENetStall b => Some (setEnv s b (recvNonEmpty s) (recvFull s) (recvChanFull s) (sendFull s) (sendMoved s) (rFired s) (wFired s) (rdSet s) (wdSet s))
   | ENetBreak => Some (mkState (closeRequested s) (closedChan s) (nclosed s) (attached s) (inputErr s) (outputErr s) (udone s) (connDL s) (netStalled s)
           (recvNonEmpty s) (recvFull s) (recvChanFull s) (sendFull s) (sendMoved s) (rFired s) (wFired s) (rdSet s) (wdSet s) (isClient s)
-          (pR s) (pW s) (pC1 s) (pC2 s) (pI s) (pO s) (pE s) (pU s) true (keepLock s))
+          (pR s) (pW s) (pC1 s) (pC2 s) (pI s) (pO s) (pE s) (pU s) true (keepLock s) (readDL s) (tickPending s) (fixedLoop s))
+  | ETick => match pU s with UIdle => Some (setRDL s (readDL s) true) | _ => None end   (* the ticker is stopped when Close begins *)
   | EInputFail => Some (setFlags s (closeRequested s) (closedChan s) (nclosed s) true (outputErr s) (udone s) (connDL s))
   | EOutputFail => Some (setFlags s (closeRequested s) (closedChan s) (nclosed s) (inputErr s) true (udone s) (connDL s))
   end.
@@ -305,11 +333,17 @@ Fixpoint run (s : state) (ls : list label) : option state :=
   | l :: ls' => match step l s with Some s' => run s' ls' | None => None end
   end.
 
-Definition init_v (keep client att : bool) : state :=
+Definition init_vv (keep fixed client att : bool) : state :=
   mkState false false O att false false false false false false false false false false false false false false client
-          RIdle WIdle CIdle CIdle LRun LRun ERun UIdle false keep.
+          RIdle WIdle CIdle CIdle LRun LRun ERun UIdle false keep false false fixed.
+
+Definition init_v (keep client att : bool) : state := init_vv keep true client att.
 
 Definition init (client att : bool) : state := init_v false client att.
+
+(* the event loop once the underlay is done *)
+Definition mEv (s : state) : nat :=
+  match pE s with EExited => 0 | ERun => 1 | EArmed => 2 | ERead => 3 | EDeliver => 3 end + (if tickPending s then 3 else 0).
 
 (* --- what is left to do: measure of outstanding work once the session is closed / the underlay is closing -- *)
 
@@ -374,16 +408,13 @@ Definition predict_write (t0 eff : Z) (stall tcp : bool) (clo chi creq : Z) : cl
   else if 0 <? eff then TIMEOUT else if known chi then CLOSED else BLOCKED.
 
 (* Close of a session / mux: first = the first Close of that object; stall as above.  bound in us.
-   rearm = finding-tagged outcome (C15_event_loop_rearms): the server underlay event loop woke up before done was
-   closed / picked a pending clean tick, re-armed its read timeout rt, and Mux.Close waits for it: the Close then
-   returns within rt + bound, or is still blocked at the horizon. *)
-Definition accept_close (bound rt t0 t1 : Z) (first stall tcp rearm : bool) (obs : cls) : bool :=
+   (Before the fix of the event loop a server Mux.Close could also wait for a re-armed read timeout:
+   C15_event_loop_rearms_refuted_before_fix; the fixed code has no such outcome, C15_underlay_close_releases_event_loop.) *)
+Definition accept_close (bound t0 t1 : Z) (first stall tcp : bool) (obs : cls) : bool :=
   match obs with
-  | OK => known t1 && ((t1 - t0 <=? bound) || (stall && tcp) || (rearm && (t1 - t0 <=? rt + bound)))
-  | BLOCKED => (t1 =? -1) && ((stall && tcp) || rearm)
+  | OK => known t1 && ((t1 - t0 <=? bound) || (stall && tcp))
+  | BLOCKED => (t1 =? -1) && stall && tcp
   | _ => false
   end.
 
-Definition read_timeout_us : Z := C15_readOneSegmentTimeout_ns / 1000.
-
-Definition predict_close (stall tcp rearm : bool) : cls := if (stall && tcp) || rearm then BLOCKED else OK.
+Definition predict_close (stall tcp : bool) : cls := if stall && tcp then BLOCKED else OK.
